@@ -102,6 +102,7 @@ type layoutCtx struct {
 	found        map[string]map[string]string   // discovered: field -> {constant value -> constant name}
 	decls        map[types.Object]*ast.FuncDecl // function/method bodies of the package (helper inlining)
 	callDepth    int
+	soLocals     map[types.Object][]ast.Expr // string locals -> their assignments (soName follows single ones)
 }
 
 // evalCall evaluates a call of a helper of the package that returns one integer (e.g.
@@ -109,14 +110,7 @@ type layoutCtx struct {
 // its integer parameters bound to the arguments; the value is the first return on the path taken.
 // A return under a condition the engine cannot resolve makes the result opaque.
 func (lc *layoutCtx) evalCall(call *ast.CallExpr, callee types.Object, en lenv) (lform, bool) {
-	if lc.decls == nil {
-		lc.decls = map[types.Object]*ast.FuncDecl{}
-		core.FuncDecls(lc.pk, func(_ *ast.File, fd *ast.FuncDecl) {
-			if o := lc.info.Defs[fd.Name]; o != nil {
-				lc.decls[o] = fd
-			}
-		})
-	}
+	lc.ensureDecls()
 	fd := lc.decls[callee]
 	if fd == nil || lc.callDepth >= 3 || fd.Type.Results == nil || len(fd.Type.Results.List) != 1 {
 		return lform{}, false
@@ -169,6 +163,18 @@ func (lc *layoutCtx) evalCall(call *ast.CallExpr, callee types.Object, en lenv) 
 		return lform{}, false
 	}
 	return *ret, true
+}
+
+func (lc *layoutCtx) ensureDecls() {
+	if lc.decls != nil {
+		return
+	}
+	lc.decls = map[types.Object]*ast.FuncDecl{}
+	core.FuncDecls(lc.pk, func(_ *ast.File, fd *ast.FuncDecl) {
+		if o := lc.info.Defs[fd.Name]; o != nil {
+			lc.decls[o] = fd
+		}
+	})
 }
 
 // recvFieldOf: `op.F` on the method receiver -> F
@@ -350,6 +356,46 @@ func (lc *layoutCtx) soName(e ast.Expr) string {
 						return s
 					}
 					return "type:" + n.Obj().Name()
+				}
+			}
+		}
+	}
+	// a local assigned once (`kbdName := kSo.Shr_get_name()`)
+	if id, ok := ast.Unparen(e).(*ast.Ident); ok {
+		if lc.soLocals == nil {
+			lc.soLocals = map[types.Object][]ast.Expr{}
+			for _, f := range lc.pk.Syntax {
+				ast.Inspect(f, func(n ast.Node) bool {
+					as, ok := n.(*ast.AssignStmt)
+					if !ok {
+						return true
+					}
+					for i, l := range as.Lhs {
+						lid, ok := l.(*ast.Ident)
+						if !ok {
+							continue
+						}
+						o := lc.info.ObjectOf(lid)
+						if o == nil {
+							continue
+						}
+						if _, isStr := o.Type().Underlying().(*types.Basic); !isStr {
+							continue
+						}
+						if len(as.Lhs) == len(as.Rhs) {
+							lc.soLocals[o] = append(lc.soLocals[o], as.Rhs[i])
+						} else {
+							lc.soLocals[o] = append(lc.soLocals[o], nil)
+						}
+					}
+					return true
+				})
+			}
+		}
+		if o := lc.info.ObjectOf(id); o != nil {
+			if defs := lc.soLocals[o]; len(defs) == 1 && defs[0] != nil {
+				if _, again := ast.Unparen(defs[0]).(*ast.Ident); !again {
+					return lc.soName(defs[0])
 				}
 			}
 		}
@@ -912,6 +958,31 @@ func (lc *layoutCtx) extract(v *opViews, fd *ast.FuncDecl) {
 							inlineDepth--
 						}
 					}
+					// call of a field-building helper of the package (a function whose body calls
+					// zeros_prefix, e.g. `r2owaaRegisterOperand(arch, name) (string, bool)`): inline it
+					// with its integer parameters bound
+					if c := core.CalleeOf(lc.info, call); c != nil && inlineDepth < 2 {
+						lc.ensureDecls()
+						if hd := lc.decls[c]; hd != nil && hd != fd && hd.Name.Name != "zeros_prefix" && callsNamed(lc.info, hd.Body, "zeros_prefix") {
+							ce := lenv{}
+							idx := 0
+							for _, f := range hd.Type.Params.List {
+								for _, pn := range f.Names {
+									if idx < len(call.Args) {
+										if o := lc.info.ObjectOf(pn); o != nil {
+											if b, ok := o.Type().Underlying().(*types.Basic); ok && b.Info()&types.IsInteger != 0 {
+												ce[o] = lc.eval(call.Args[idx], en)
+											}
+										}
+									}
+									idx++
+								}
+							}
+							inlineDepth++
+							lc.walk(hd.Body.List, ce, visitAsm)
+							inlineDepth--
+						}
+					}
 				}
 			}
 		}
@@ -1037,6 +1108,20 @@ func (lc *layoutCtx) extract(v *opViews, fd *ast.FuncDecl) {
 			})
 		})
 	}
+}
+
+// callsNamed reports whether body contains a call of a function called name.
+func callsNamed(info *types.Info, body ast.Node, name string) bool {
+	found := false
+	ast.Inspect(body, func(n ast.Node) bool {
+		if call, ok := n.(*ast.CallExpr); ok {
+			if c := core.CalleeOf(info, call); c != nil && c.Name() == name {
+				found = true
+			}
+		}
+		return !found
+	})
+	return found
 }
 
 // decodedUses: for each slice `x := get_id(instr[a:b])`, how is x used — which name function prints
